@@ -64,6 +64,7 @@ func (lex *LexScanner) SetExpectMetadata(v bool) {
 }
 
 func (lex *LexScanner) ScanFunc(r ybase.Reader) int {
+retry: // after a comment; not a recursive call, a long run of comment lines would exhaust the stack
 	r.DiscardWhile(unicode.IsSpace)
 
 	if lex.expectMetadata {
@@ -92,7 +93,7 @@ func (lex *LexScanner) ScanFunc(r ybase.Reader) int {
 	switch r.Peek() {
 	case ';': // comment
 		r.DiscardWhile(func(r rune) bool { return r != '\n' && r != ybase.EOF })
-		return lex.ScanFunc(r)
+		goto retry
 	case 'C', 'D', 'E', 'F', 'G', 'A', 'B':
 		return nextRet(SYLLABLE)
 	case 'R':
